@@ -295,7 +295,7 @@ pub fn run(ctx: &mut Ctx) {
             return;
         }
     };
-    let total = ctx.n(6_000, 10_000_000);
+    let total = ctx.n(30_000, 10_000_000);
     for case in ctx.cases(total) {
         if ctx.out_of_budget() {
             ctx.count("budget-stop");
